@@ -178,3 +178,119 @@ func init() {
 			return ""
 		})
 }
+
+func c12Jobs(tier string) []*Job {
+	var jobs []*Job
+	per, cap := 100, 400_000
+	if tier == "thorough" {
+		per, cap = 1200, 10_000_000
+	}
+	all := []H{101, 102, 103}
+	for _, a := range []int64{-1, 0} {
+		for mask := 1; mask < 8; mask++ {
+			var miss []H
+			for i, t := range all {
+				if mask&(1<<i) != 0 {
+					miss = append(miss, t)
+				}
+			}
+			for _, bad := range []bool{false, true} {
+				for _, m1 := range [][]H{{104, 105}, {105}} {
+					if tier != "thorough" && a == 0 && (mask == 3 || mask == 5 || mask == 6) {
+						continue
+					}
+					// core stratum: proposals of views 0/1, change views to view 1 from every peer, responses from two peers
+					sp := E2Spec{Views: 2, Proposals: "A", Responses: "A", RespPeers: 2, CVs: 1, CVViews: 1, PoolFirst: true, TxA: all, TxA1: []H{104, 105}, MaxDepth: 16, StateCap: cap, Peers: nil}
+					sc := e2scen(fmt.Sprintf("C12-missing%03b-bad%v-v1missing%d-%s", mask, bad, len(m1), amevName(a)), 4, 2, a, sp)
+					sc.Pool = []H{101, 102, 103, 104, 105}
+					sc.TxPerBlock = 3
+					sc.Missing = map[int][]H{2: append(append([]H{}, miss...), m1...)}
+					sc.BadTx = map[int][]H{}
+					if bad {
+						sc.BadTx[2] = []H{102}
+					}
+					jobs = append(jobs, job(sc, per))
+				}
+			}
+		}
+	}
+	// N=7 (M=5): one stratum
+	sp := E2Spec{Views: 2, Proposals: "A", Responses: "A", CVs: 1, TxA: all, TxA1: []H{104, 105}, MaxDepth: 12, StateCap: cap, Peers: []int{1, 2, 3, 4, 5}}
+	sc := e2scen("C12-N7-missing011-bad", 7, 0, -1, sp)
+	sc.Pool, sc.TxPerBlock = []H{101, 102, 103, 104, 105}, 3
+	sc.Missing = map[int][]H{0: {101, 102, 104, 105}}
+	sc.BadTx = map[int][]H{0: {102}}
+	jobs = append(jobs, job(sc, per))
+	return jobs
+}
+
+func init() {
+	e1Check("C12", "E2: a backup alone against the environment: view-0 proposal with 3 transactions of which every non-empty subset is missing locally, completed block accepted or rejected by VerifyBlock, a cached view-1 proposal with its own missing set, responses / commits / change views from all peers that can complete quorums, timeouts (RecoveryRequest re-requests), every order of transaction supplies interleaved with all of it, breadth-first with state deduplication; oracle = reference model 'requested minus supplied' kept from RequestTx arguments: when it empties while the node is still in that view and has not asked to leave it, the same API call must broadcast a PrepareResponse or a ChangeView; plus the closed-world missing-transaction bases of the E1 family",
+		func(tier string) []*Job {
+			j := c12Jobs(tier)
+			per := 100
+			if tier == "thorough" {
+				per = 900
+			}
+			for _, a := range []int64{-1, 0} {
+				j = append(j, job(scen("B3-missing-tx-n2-N4-"+amevName(a), 4, withAMEV(a), withMissing(2, 101), withK(2), withDev(func(d *Dev) { d.TxOrder = true })), per))
+				j = append(j, job(scen("B4-badtx-n2-N4-"+amevName(a), 4, withAMEV(a), withBadTx(2, 101), withMissing(2, 101), withK(2)), per))
+			}
+			return j
+		}, func(a *Aggregate) string {
+			if a.Stats.KindsSent["PResp"] == 0 || a.Stats.KindsSent["CV"] == 0 {
+				return "no PrepareResponse / ChangeView answer was ever produced"
+			}
+			return ""
+		})
+}
+
+func c11Jobs(tier string) []*Job {
+	var jobs []*Job
+	per, cap := 110, 150_000
+	if tier == "thorough" {
+		per, cap = 1500, 3_000_000
+	}
+	h := uint32(5)
+	prim0, prim1 := primaryAt(h, 0, 4), primaryAt(h, 1, 4)
+	other := 0
+	for other == prim0 || other == prim1 {
+		other++
+	}
+	for _, a := range []int64{-1, 0, 6} {
+		pc := ""
+		if a >= 0 {
+			pc = "AG"
+		}
+		for _, x := range []int{other, prim1, prim0} {
+			sp := E2Spec{Views: 2, Proposals: "AB", Responses: "AO", RespPeers: 2, Commits: "AGO", PreCommits: pc, CVs: 1, Bundles: true, RecReq: true, MaxDepth: 12, StateCap: cap}
+			sc := e2scen(fmt.Sprintf("C11-sweep-N4-x%d-%s", x, amevName(a)), 4, x, a, sp)
+			sc.Sweep = true
+			jobs = append(jobs, job(sc, per))
+		}
+	}
+	// validator set (size, membership, own index) changes between heights; next-height traffic; ledger skip
+	sp := E2Spec{Views: 1, Proposals: "A", Responses: "A", Commits: "A", CVs: 1, NextHeight: true, OldHeight: true, Skip: true, Heights: 2, MaxDepth: 14, StateCap: cap}
+	sc := e2scen("C11-sweep-changing-validators", 4, 2, -1, sp)
+	sc.Kinds = append(sc.Kinds, kSilent, kSilent, kSilent)
+	sc.ValSets = [][]int{{0, 1, 2, 3}, {3, 2, 1, 0, 4, 5, 6}, {6, 2}}
+	sc.Sweep = true
+	jobs = append(jobs, job(sc, per))
+	return jobs
+}
+
+func init() {
+	e1Check("C11", "E2 state generation (one real node, full two-view alphabet: proposals A/B, responses, (pre)commits valid/garbage, change views, recovery requests and bundles, timeouts, transaction supplies; N=4 at three roles, anti-MEV off/on/switching, plus a run where the validator set changes size, membership and the node's index between heights) x inadmissible-input sweep in EVERY reached state: index out of range, past height, proposal from a non-primary, proposal/response for a lower view, response from the primary, pre-commit while anti-MEV is off, unrequested transaction, timeout for another height/view, and re-delivery of every stored payload; oracle: whole-struct fingerprint unchanged except LastSeenMessage, no Timer call, no broadcast (re-delivery: at most one RecoveryMessage). Panic watch: every API call of every engine runs under recover; the E1 safety family is part of this check for that purpose.",
+		func(tier string) []*Job { return append(c11Jobs(tier), safetyFamily(tier, []int64{-1, 0})...) },
+		func(a *Aggregate) string {
+			if a.Extra["sweep_pairs"] < 1000 {
+				return "inadmissible-input sweep covered fewer than 1000 (state, input) pairs"
+			}
+			for _, c := range []string{"index-out-of-range", "past-height", "proposal-from-non-primary", "proposal-for-lower-view", "response-for-lower-view", "response-from-primary", "precommit-amev-off", "unrequested-tx", "foreign-timeout", "redelivery-Commit", "redelivery-PResp", "redelivery-CV", "redelivery-PReq"} {
+				if a.Extra["sweep/"+c] == 0 {
+					return "input class never exercised: " + c
+				}
+			}
+			return ""
+		})
+}
